@@ -25,7 +25,9 @@ Inductive verdict :=
 | VOk
 | VFinding (br : branch) (neg : bool)     (* implementation = model, and PROVED outside the allowance of the solution *)
 | VSpecUnknown (br : branch)              (* = model, but the enclosure could not settle (ii) *)
-| VModel (what : string)                  (* implementation and model disagree *)
+| VBoth (br : branch) (neg : bool)        (* differs from the model AND proved outside the allowance of the solution *)
+| VModelOnly (br : branch)                (* differs from the model, not shown to differ from the solution *)
+| VModel (what : string)                  (* entry / exception disagreement *)
 | VUndecided                              (* model declined: branch test too close to its threshold *)
 | VShape.
 
@@ -37,6 +39,8 @@ Definition verdict_str (v : verdict) : string :=
   | VOk => "ok"
   | VFinding b n => "finding " ++ br_name b ++ (if n then " negative" else "")
   | VSpecUnknown b => "spec-unknown " ++ br_name b
+  | VBoth b n => "model-and-spec " ++ br_name b ++ (if n then " negative" else "")
+  | VModelOnly b => "model-only " ++ br_name b
   | VModel w => "model " ++ w
   | VUndecided => "undecided"
   | VShape => "shape"
@@ -56,10 +60,12 @@ Fixpoint zipQ (a b : list Q) : list (Q * Q) :=
 
 Definition judge_values (r : arow) (br : branch) (a m lam spec : expr) (rest vals : list Q) : verdict :=
   let pairs := zipQ rest vals in
-  if negb (forallb (fun p => cmp_model (snd p) a m lam (fst p)) pairs) then VModel ("value " ++ br_name br) else
+  let m_ok := forallb (fun p => cmp_model (snd p) a m lam (fst p)) pairs in
   let ss := map (fun p => cmp_spec (snd p) spec (r_thalf r) (fst p)) pairs in
-  if forallb is_ge0 ss then VOk else
-  if existsb is_lt0 ss then VFinding br (existsb (fun v => Qlt_bool v 0) vals) else VSpecUnknown br.
+  let neg := existsb (fun v => Qlt_bool v 0) vals in
+  if forallb is_ge0 ss then (if m_ok then VOk else VModelOnly br) else
+  if existsb is_lt0 ss then (if m_ok then VFinding br neg else VBoth br neg)
+  else (if m_ok then VSpecUnknown br else VModelOnly br).
 
 Definition judge (rows : list arow) (cs : c14case) : verdict :=
   let '(z, a, j, inp, rest, out) := cs in
